@@ -45,7 +45,7 @@ struct Relay {
 	// randomises case anyway.  Answers to its own repeats are swallowed (only the first answer per forwarded id goes back).
 	// Which queries the property allows to be repeated is decided conservatively from what the relay has seen: `age` counts
 	// every ping/data answer seen since plus everything still unanswered.
-	struct Fwd { uint16_t out_id = 0, qtype = 0; refdns::Name name; bool opt = false, ping = false, answered = false, have_payload = false; uint64_t ans_seq = 0, t_fwd = 0; Bytes payload; };
+	struct Fwd { uint16_t out_id = 0, qtype = 0; refdns::Name name; bool opt = false, ping = false, answered = false, have_payload = false; uint64_t ans_seq = 0, t_fwd = 0; Bytes payload; int extra_sameid = 0, answers_seen = 0; /* case-changed repeats sent under the same id (each is a new query to the server and will be answered and remembered), answers seen under this id */ };
 	struct Red { int of = 0; bool identical = true, expect_same = false, answered = false; };
 	bool redeliver = false; uint32_t p_red = 300;
 	sim::Addr back2;
@@ -87,7 +87,7 @@ struct Relay {
 	void fire()
 	{
 		int inflight = 0;
-		for (auto &f : fwd) if (!f.answered) inflight++;
+		for (auto &f : fwd) inflight += std::max(0, 1 + f.extra_sameid - f.answers_seen);
 		for (auto &r : red) if (!r.second.identical && !r.second.answered) inflight++;
 		std::vector<int> pendv, cache, qd, qp;
 		for (int i = (int)fwd.size() - 1; i >= 0; i--) {
@@ -116,7 +116,7 @@ struct Relay {
 		for (int n = 0; n < times; n++) {
 			uint16_t id = newid ? next_red_id++ : f.out_id;
 			if (newid) { Red r; r.of = of; r.identical = identical; r.expect_same = identical && window == 1 && f.have_payload; red[id] = r; }
-			else n_red_sameid++;
+			else { n_red_sameid++; if (!identical) fwd[of].extra_sameid++; }
 			sim::Datagram o; o.src = other ? back2 : back; o.dst = server;
 			o.data = refdns::build_query(id, name.labels, f.qtype, f.opt && p.edns0);
 			sim::W.send(o);
@@ -164,6 +164,7 @@ struct Relay {
 		auto it = fwd_by_id.find(m.id);
 		if (it == fwd_by_id.end()) return false;
 		Fwd &f = fwd[it->second];
+		f.answers_seen++;
 		if (f.answered) { note_swallowed(dg, it->second); return true; }   // second answer for the same id (a same-id repeat): swallowed
 		f.answered = true; f.ans_seq = ans_counter;
 		refproto::Answer a;
